@@ -1,7 +1,7 @@
 (* Property C10 — path addressing is exact.  Only statements and [exact]; proofs live in Proofs/KeyPath*.v, Proofs/Hier*.v. *)
 From PG Require Import Common.Tactics Model.KeyPath Model.Hier Model.KeyPathMachine Gen.KeyPathSrc Proofs.KeyPathMachineLink
   Proofs.KeyPathParse Proofs.KeyPathArith Proofs.KeyPathOrder
-  Proofs.KeyPathSetBase Proofs.KeyPathSetIter Proofs.KeyPathSetThm Proofs.KeyPathSetEq Proofs.KeyPathSetInter Proofs.HierTraverse Proofs.HierQuery Proofs.HierFlatten Proofs.HierStop Proofs.HierMerge Proofs.KeyPathExamples.
+  Proofs.KeyPathSetBase Proofs.KeyPathSetIter Proofs.KeyPathSetThm Proofs.KeyPathSetEq Proofs.KeyPathSetInter Proofs.HierTraverse Proofs.HierQuery Proofs.HierFlatten Proofs.HierStop Proofs.HierMerge Proofs.HierCanon Proofs.KeyPathExamples.
 
 (* 1. A key path of admissible keys (integers; non-empty strings with balanced brackets) prints to a string
       that parses back to the same keys.  Any number of keys, any lengths. *)
@@ -253,3 +253,28 @@ Theorem C10_merge_tree_laws :
   (forall s d r, merge_c d s = inr r -> merge_plain d s = inr r).
 Proof. split; [exact merge_plain_replace | split; [exact merge_plain_idem | exact merge_c_is_plain]]. Qed.
 Print Assumptions C10_merge_tree_laws.
+
+(* 9. Values that are already canonical (distinct keys; string keys non-empty without delimiter; no dict that stands for a
+      list) are fixed points of canonicalize; transform with a function that deletes nothing is the identity;
+      _merge_dict_into_list raises KeyError exactly when some key is a string and succeeds when every index is an int not
+      below -len(dest); canonicalize never fails with TypeError, and a ValueError always comes from a string key,
+      somewhere in the value, that does not parse. *)
+Theorem C10_canonicalize_fixed_point : forall v, canonical v -> canon true v = inr v.
+Proof. exact canon_canonical. Qed.
+Print Assumptions C10_canonicalize_fixed_point.
+
+Theorem C10_transform_identity : forall v path, xform (fun _ _ => false) v path = Some v.
+Proof. exact xform_keep_all. Qed.
+Print Assumptions C10_transform_identity.
+
+Theorem C10_merge_into_list : forall d s,
+  (merge_into_list d s = inl HKeyError <-> exists k x, In (KStr k, x) s) /\
+  (forall zs, int_keys s = Some zs -> Forall (fun zv => (- Z.of_nat (length d) <= fst zv)%Z) zs ->
+     exists r, merge_into_list d s = inr (PList r)).
+Proof. exact merge_into_list_errors. Qed.
+Print Assumptions C10_merge_into_list.
+
+Theorem C10_canonicalize_error_kinds : forall sp v,
+  canon sp v <> inl HTypeError /\ (canon sp v = inl HValueError -> bad_key v).
+Proof. exact canon_error_kinds. Qed.
+Print Assumptions C10_canonicalize_error_kinds.
